@@ -5,13 +5,13 @@ import multiprocessing as mp, os, time, traceback
 
 
 def _worker(job):
-    qual, override, labels_pid, timeout_ms = job
+    qual, override, variant, timeout_ms = job
     try:
         from .program import Program
         from .contracts import verify_function, model_summary
         from contracts.registry import build
         prog = Program(overrides=override or None)
-        reg = build()
+        reg = build(variant)
         c = reg.get(qual)
         if c is None:
             return {'qual': qual, 'error': f'no contract registered for {qual}', 'results': [], 'fatal': True}
@@ -44,10 +44,10 @@ def _worker(job):
                 'traceback': traceback.format_exc()[-2000:]}
 
 
-def verify_many(jobs, procs=None, timeout_ms=20000):
+def verify_many(jobs, procs=None, timeout_ms=20000, variant=None):
     """jobs: list of (qual, overrides-dict-or-None).  Returns reports in the same order."""
     procs = procs or min(16, max(1, len(jobs)), os.cpu_count() or 4)
-    payload = [(q, ov, None, timeout_ms) for q, ov in jobs]
+    payload = [(q, ov, variant, timeout_ms) for q, ov in jobs]
     if procs == 1 or len(jobs) == 1:
         return [_worker(j) for j in payload]
     ctx = mp.get_context('fork')
